@@ -329,7 +329,8 @@ def gen_cop(ctx, rnd, cases):
     edge = 1 - F(1, 2 ** 10)
     rho_fixed = [F(0), F(1, 2), F(-1, 2), F(21, 50), edge, -edge, F(1, 2 ** 10), F(-1, 2 ** 10), F(-3, 4), F(7, 8)]
     # ---- constructor guard
-    grid = [F(k, 8) for k in range(-7, 8)] + [edge, -edge, F(-1, 2 ** 10)]
+    grid = [F(k, 8) for k in range(-7, 8)] + [edge, -edge, F(-1, 2 ** 10)] + [
+        sg * (1 - F(1, 2 ** k)) for k in (14, 20) for sg in (1, -1)]
     outside = [F(3, 2), F(-5, 4), F(2), F(-9, 8)]
     for validate in (True, False):
         for r in grid + outside:
@@ -356,48 +357,71 @@ def gen_cop(ctx, rnd, cases):
 
     nrand = 6 if ctx.quick else 300
     rhos = rho_fixed + [F(rnd.randint(-255, 255), 256) for _ in range(nrand)]
-    groups = []
-    for validate in (False, True):
-        rs, pts = [], []
-        for r in rhos:
-            for _ in range(2):
+    # the SAME dependences and points are evaluated with validate_args False and True (metamorphic pairs)
+    plan = []
+    rs, pts = [], []
+    for r in rhos:
+        for _ in range(2):
+            rs.append(r)
+            pts.append((upt(), upt()))
+    # towards the boundary |rho| -> 1 (float64: 1 - rho^2 >= 2^-19 keeps the closed form well conditioned).  Points near
+    # the ridge u = v (u = 1 - v for negative dependence), on it, and generic ones
+    # k >= 27 lies beyond +-(1 - sqrt(eps_float64)) = +-(1 - 2^-26); there float64 evaluates 1 - rho^2 with a relative
+    # error up to 2^-(k+1), so those lemmas carry the tolerance 1e-7 (hp) and are proved with 192-bit intervals
+    for k in (12, 16, 20, 30, 40) if ctx.quick else (11, 12, 13, 14, 15, 16, 18, 20, 22, 24, 26, 27, 28, 30, 34, 40, 44):
+        for sgn in (1, -1):
+            r = sgn * (1 - F(1, 2 ** k))
+            a = F(rnd.randint(40, 1000), 1024)
+            near = a + F(rnd.choice([-4, -2, -1, 1, 2, 4]), 1024)
+            cand = [(a, near), (a, a), (F(1005, 1024), F(1000, 1024)), (upt(), upt())]
+            for (u, v) in cand if not ctx.quick else cand[:3]:
                 rs.append(r)
-                pts.append((upt(), upt()))
-        groups.append((rs, pts, validate, False, None))
-        # batched object: same dependences, fresh points
-        rb = rhos[: (8 if ctx.quick else 60)]
-        groups.append((rb, [(upt(), upt()) for _ in rb], validate, True, None))
-        # dependence with 2 and 3 batch dimensions, pairwise different entries: square, non-square, 3-d
-        shapes = [(2, 2), (2, 3), (2, 2, 2)] + ([] if ctx.quick else [(3, 3), (3, 2), (1, 4), (2, 3, 2), (3, 1, 2)])
-        for shape in shapes:
-            n = math.prod(shape)
-            rn = [F(-4, 5), F(1, 2), F(1, 10), F(9, 10)] if shape == (2, 2) else []
-            while len(rn) < n:
-                r = F(rnd.randint(-250, 250), 256)
-                if r not in rn:
-                    rn.append(r)
-            same = rnd.random() < 0.5        # one shared point for all cells (as in the demonstration) or one per cell
-            p0 = (upt(), upt())
-            groups.append((rn, [p0 if same else (upt(), upt()) for _ in rn], validate, True, list(shape)))
-            cases.append({"kind": "ctor", "rhos": [fs(r) for r in rn], "validate": validate, "batched": True,
-                          "shape": list(shape), "obs": ctor_outcome(rn, validate, True, shape),
-                          "stratum": ("ctor.validate." if validate else "ctor.novalidate.") + f"batch_ndim={len(shape)}"})
-    for rs, pts, validate, batched, shape in groups:
-        obs = run_cop(rs, pts, validate, batched, shape)
-        qx = qnorm_oracle([p[0] for p in pts])
-        qy = qnorm_oracle([p[1] for p in pts])
-        for i, (r, (u, v)) in enumerate(zip(rs, pts)):
-            c = {"kind": "cop", "rho": fs(r), "u": fs(u), "v": fs(v), "validate": validate, "batched": batched,
-                 "qx": fs(ff(qx[i])), "qy": fs(ff(qy[i])), "obs": enc(obs[i])}
-            c["stratum"] = "cop." + ("validate." if validate else "novalidate.") + (
-                "rho=0" if r == 0 else "rho_near_pm1" if abs(r) > F(99, 100) else "rho<0" if r < 0 else "rho>0") + (
-                ".batched" if batched else "")
+                pts.append((u, v if sgn > 0 else 1 - v))
+    plan.append((rs, pts, False, None))
+    rb = rhos[: (8 if ctx.quick else 60)] + [1 - F(1, 2 ** 14), -(1 - F(1, 2 ** 16)), 1 - F(1, 2 ** 30)]
+    plan.append((rb, [(upt(), upt()) for _ in rb], True, None))       # 1-d batched object, fresh points
+    # dependence with 2 and 3 batch dimensions, pairwise different entries: square, non-square, 3-d
+    shapes = [(2, 2), (2, 3), (2, 2, 2)] + ([] if ctx.quick else [(3, 3), (3, 2), (1, 4), (2, 3, 2), (3, 1, 2)])
+    for shape in shapes:
+        n = math.prod(shape)
+        rn = [F(-4, 5), F(1, 2), F(1, 10), F(9, 10)] if shape == (2, 2) else []
+        while len(rn) < n:
+            r = F(rnd.randint(-250, 250), 256)
+            if r not in rn:
+                rn.append(r)
+        same = rnd.random() < 0.5        # one shared point for all cells (as in the demonstration) or one per cell
+        p0 = (upt(), upt())
+        plan.append((rn, [p0 if same else (upt(), upt()) for _ in rn], True, list(shape)))
+    first = {}
+    for validate in (False, True):
+        for gi, (rs, pts, batched, shape) in enumerate(plan):
             if shape:
-                c.update({"shape": shape, "idx": i, "all_rhos": [fs(t) for t in rs],
-                          "all_pts": [[fs(a), fs(b)] for a, b in pts]})
-                c["stratum"] = ("cop." + ("validate." if validate else "novalidate.") + f"batch_ndim={len(shape)}."
-                                + ("square" if len(set(shape)) == 1 else "nonsquare"))
-            cases.append(c)
+                cases.append({"kind": "ctor", "rhos": [fs(r) for r in rs], "validate": validate, "batched": True,
+                              "shape": shape, "obs": ctor_outcome(rs, validate, True, shape),
+                              "stratum": ("ctor.validate." if validate else "ctor.novalidate.") + f"batch_ndim={len(shape)}"})
+            obs = run_cop(rs, pts, validate, batched, shape)
+            qx = qnorm_oracle([p[0] for p in pts])
+            qy = qnorm_oracle([p[1] for p in pts])
+            for i, (r, (u, v)) in enumerate(zip(rs, pts)):
+                c = {"kind": "cop", "rho": fs(r), "u": fs(u), "v": fs(v), "validate": validate, "batched": batched,
+                     "qx": fs(ff(qx[i])), "qy": fs(ff(qy[i])), "obs": enc(obs[i])}
+                if 1 - abs(r) < F(1, 2 ** 23):
+                    c["hp"] = True
+                c["stratum"] = "cop." + ("validate." if validate else "novalidate.") + (
+                    "rho=0" if r == 0 else "rho_beyond_1-2^-26" if 1 - abs(r) < F(1, 2 ** 26) else
+                    "rho_boundary" if abs(r) > F(999, 1000) else
+                    "rho_near_pm1" if abs(r) > F(99, 100) else "rho<0" if r < 0 else "rho>0") + (
+                    ".batched" if batched else "")
+                if shape:
+                    c.update({"shape": shape, "idx": i, "all_rhos": [fs(t) for t in rs],
+                              "all_pts": [[fs(a), fs(b)] for a, b in pts]})
+                    c["stratum"] = ("cop." + ("validate." if validate else "novalidate.") + f"batch_ndim={len(shape)}."
+                                    + ("square" if len(set(shape)) == 1 else "nonsquare"))
+                if validate:
+                    c["obs_novalidate"] = first[(gi, i)]       # identical inputs, validate_args=False
+                else:
+                    first[(gi, i)] = c["obs"]
+                cases.append(c)
 
 
 def closed_form(rho, x, y):
@@ -415,9 +439,14 @@ def oracle_cop(c):
         return (f"GaussianCopula(dependence={rho}, validate_args={c['validate']}).log_prob([{u}, {v}]) gives {c['obs']} "
                 f"(dependence in (-1, 1), point inside the unit square){where}")
     obs = float(pf(c["obs"]))
+    if isnum(c.get("obs_novalidate", "")):
+        other = float(pf(c["obs_novalidate"]))
+        if abs(obs - other) > 1e-12 * max(1.0, abs(other)):
+            return (f"GaussianCopula(dependence={rho}).log_prob([{u}, {v}]) = {obs} with validate_args=True but {other} with "
+                    f"validate_args=False on identical inputs{where}")
     x, y = float(norm.ppf(u)), float(norm.ppf(v))
     want = closed_form(rho, x, y)
-    if abs(obs - want) > 1e-7 * max(1.0, abs(want)):
+    if abs(obs - want) > (1e-6 if c.get("hp") else 1e-7) * max(1.0, abs(want)):
         return (f"GaussianCopula(dependence={rho}, validate_args={c['validate']}).log_prob([{u}, {v}]) = {obs} "
                 f"but the bivariate Gaussian copula log-density is {want}{where}")
     return None
@@ -434,8 +463,9 @@ def oracle_ctor(c):
 
 def stmt_cop(c):
     v = pf(c["obs"])
+    hp = c.get("hp")
     return (f"close (copula_logpdf {rlit(pf(c['rho']))} {rlit(pf(c['qx']))} {rlit(pf(c['qy']))}) "
-            f"{rlit(v)} {rlit(tol_for(v))}"), "c18_close"
+            f"{rlit(v)} {rlit(tol_for(v, F(1, 10 ** 7)) if hp else tol_for(v))}"), "c18_close_hp" if hp else "c18_close"
 
 
 def stmt_ctor(c):
@@ -1105,7 +1135,7 @@ def generate(ctx):
     ctx.cov["rule"] = ("one case = one observed number of the real code tied to the model by one R-lemma: sigmoid (function, point); "
                        "copula (dependence, u, v, validate_args, batched) and constructor (dependences, validate_args); degenerate MVN "
                        "(constructor, eigenvalues, variance, rank/log_pdet arguments, batch mode, element, point) and sampling "
-                       "(object, eigen-coordinate); distinct = distinct such tuples; forced strata: dependence 0, +-1/2, +-(1-2^-10), "
+                       "(object, eigen-coordinate); distinct = distinct such tuples; forced strata: dependence 0, +-1/2, +-(1-2^-10) ... +-(1-2^-40) on and off the ridge u=v, validate_args True vs False on identical inputs, "
                        "negative dependence with validate_args, rank 0 / deficient / full, repeated eigenvalues, every constructor with "
                        "and without rank / log_pdet, rank smaller than the true rank, custom tolerance, all batch modes, null-space shifts")
     ctx.assume += [
@@ -1238,6 +1268,12 @@ def rerun(c):
                                    c["validate"], True, c["shape"])[c["idx"]])
         else:
             c["obs"] = enc(run_cop([pf(c["rho"])], [(pf(c["u"]), pf(c["v"]))], c["validate"], c["batched"])[0])
+        if "obs_novalidate" in c:
+            if c.get("shape"):
+                c["obs_novalidate"] = enc(run_cop([pf(t) for t in c["all_rhos"]], [(pf(a), pf(b)) for a, b in c["all_pts"]],
+                                                  False, True, c["shape"])[c["idx"]])
+            else:
+                c["obs_novalidate"] = enc(run_cop([pf(c["rho"])], [(pf(c["u"]), pf(c["v"]))], False, c["batched"])[0])
     elif k in ("mvn", "mvnm"):
         c["kind"] = "mvn"
         g = c["group"]
